@@ -28,6 +28,13 @@ type Spec[E any] struct {
 	Wrap func(body func())
 	// Stop optionally ends exploration below a state after a violation there.
 	StopAtViolation bool
+	// Roots, when set, replaces the empty history as the initial frontier
+	// (sharding: a parent explores to depth k, workers continue from disjoint
+	// parts of that frontier; MaxDepth then counts events beyond the roots).
+	Roots [][]E
+	// Frontier, when set, receives the histories of the states first reached
+	// at the last depth (what a sharding parent hands to its workers).
+	Frontier func(hists [][]E)
 }
 
 // Stats of a finished search.
@@ -86,11 +93,20 @@ func Run[E any](sp Spec[E]) Stats {
 		return key, ok
 	}
 
-	k0, _ := exec(nil, nil)
-	seen[k0] = struct{}{}
-	st.States = 1
 	frontier := [][]E{nil}
-	st.PerDepth = append(st.PerDepth, 1)
+	if sp.Roots != nil {
+		frontier = sp.Roots
+	}
+
+	for _, h := range frontier {
+		k0, _ := exec(h, nil)
+		if _, dup := seen[k0]; !dup {
+			seen[k0] = struct{}{}
+			st.States++
+		}
+	}
+
+	st.PerDepth = append(st.PerDepth, st.States)
 
 	for depth := 1; depth <= sp.MaxDepth && len(frontier) > 0; depth++ {
 		var next [][]E
@@ -125,6 +141,10 @@ func Run[E any](sp Spec[E]) Stats {
 		st.Depth = depth
 		st.PerDepth = append(st.PerDepth, len(next))
 		frontier = next
+	}
+
+	if sp.Frontier != nil {
+		sp.Frontier(frontier)
 	}
 
 	return st
